@@ -205,6 +205,17 @@ def crash_site(stderr):
         what = "asan: " + m2.group(1)
     if "Assertion" in stderr:
         what = "assertion failed"
+    cls = "other"
+    if "Assertion" in stderr:
+        cls = "assert"
+    elif m and "null pointer" in m.group(1):
+        cls = "ubsan-null"
+    elif m:
+        cls = "ubsan-" + re.sub(r"[^a-z]+", "-", m.group(1).lower())[:24].strip("-")
+    elif m2:
+        cls = "asan-" + m2.group(1).lower()
+    elif "TIMEOUT" in stderr:
+        cls = "hang"
     fn = "?"
     for m3 in re.finditer(r"#\d+ 0x[0-9a-f]+ in (\S+) (\S+)", stderr):
         f, loc = m3.group(1), m3.group(2)
@@ -216,7 +227,7 @@ def crash_site(stderr):
         m4 = re.search(r"(\S+\.[cly]):(\d+):\d+: runtime error", stderr)
         if m4:
             fn = os.path.basename(m4.group(1))
-    return what, fn
+    return what, fn, cls
 
 
 def parse_out(l):
@@ -350,8 +361,8 @@ def run(tier, replay=None):
                 failures.append((name, int(mode), int(k), "no-result", {"stderr": "case produced no output"}))
                 continue
             if o["out"] is None:
-                what, fn = crash_site(o["crash"] or "")
-                failures.append((name, int(mode), int(k), "crash", {"what": what, "site": fn, "stderr": o["crash"]}))
+                what, fn, cls = crash_site(o["crash"] or "")
+                failures.append((name, int(mode), int(k), "crash", {"what": what, "site": fn, "class": cls, "stderr": o["crash"]}))
                 rc_hist["CRASH"] = rc_hist.get("CRASH", 0) + 1
                 continue
             d = parse_out(o["out"])
@@ -412,7 +423,7 @@ def run(tier, replay=None):
     groups = {}
     for name, mode, k, kind, det in failures:
         if kind == "crash":
-            site, ctx = det["site"], det["site"]
+            site, ctx = det["site"], det["class"]       # for crashes the "context" is the class of the sanitizer report
         elif kind in ("no-result", "harness-setup"):
             site, ctx = "?", "?"
         else:
